@@ -306,6 +306,27 @@ def run_case(case):
                   "detail": f"{i}->{o}: got {res.dtype} {res.shape}, want {o} {a.shape}"})
         return {"violations": v, "evals": max(1, len(flat)), "obs": obs}
     got = res.ravel().tolist()
+    if case["vseed"] % 4 == 0 and not case.get("large"):
+        # a conversion loop that keeps its results (results = [t(c) for c in chunks]): a
+        # later call of the same transformer on another chunk of the same shape leaves the
+        # earlier result as it was
+        held = res.tobytes()
+        other = np.ascontiguousarray(np.asarray(a).ravel()[::-1]).reshape(a.shape)
+        try:
+            with np.errstate(all="ignore"):
+                res2 = tr(other, preserve_input=True)
+            obs["later_calls_with_earlier_result_held"] = 1
+            if res.tobytes() != held:
+                v.append({"kind": "earlier-result-changed-by-a-later-conversion",
+                          "detail": f"{i}->{o} preserve={case['preserve']} "
+                          f"layout={case['layout']}: the array returned by the first call "
+                          "changed when the same transformer converted another chunk of the "
+                          "same shape"})
+            del res2
+        except Exception as exc:  # noqa: BLE001
+            v.append({"kind": "conversion-raised",
+                      "detail": f"{i}->{o} second call of the same transformer: "
+                      f"{type(exc).__name__}: {exc}"})
     for x, g in zip(flat, got):
         obs["elements"] += 1
         if o in dx.INT_RANGE:
@@ -331,7 +352,7 @@ def run_case(case):
                     f"value {x!r} gave {g!r}, exact reference "
                     f"{want if o in dx.INT_RANGE else sorted(acc)!r}"}
             if o == "uint64" and (
-                    (i in ("int64", "uint64") and abs(x) > 2 ** 53)
+                    (i == "int64" and abs(x) > 2 ** 53)
                     or (isinstance(x, float) and x >= 2.0 ** 64)):
                 viol["known"] = KF
             v.append(viol)
@@ -355,6 +376,8 @@ def gates(obs, tier):
         "saturation_seen": obs.get("saturated", 0) > 100,
         "arrays_of_tens_of_thousands_of_elements": obs.get("large_arrays", 0) > 3,
         "arrays_beyond_2_20_elements": obs.get("huge_arrays", 0) > 3,
+        "later_calls_with_earlier_result_held": obs.get(
+            "later_calls_with_earlier_result_held", 0) > 200,
         "arrays_with_a_single_value_at_a_range_limit": obs.get(
             "arrays_with_a_single_value_at_a_range_limit", 0) > 500,
     }
